@@ -22,7 +22,9 @@ package main
 //
 // Pseudo-fields: `tty.out` (any call that hands t.tty to a writer: t.tty.Write, io.WriteString(t.tty,…),
 // ti.TPuts(t.tty,…), t.buf.WriteTo(t.tty)), `encoder.state` / `decoder.state` (Reset/Transform on the shared
-// transformer, also through a local alias `enc := t.encoder`).
+// transformer, also through a local alias `enc := t.encoder`), `ti.eval` (a call of TParm / TGoto / TColor / TPuts on the
+// shared *terminfo.Terminfo `t.ti`: the evaluator's scratch space and variables are per entry or per process, not per call
+// site, so every such call must be made under the screen lock).
 //
 // Outputs: lean/Tcell/Gen/LockFacts.lean (facts as numerals, re-checked by the kernel), gen/lockfacts.txt
 // (the same facts, the classification and the flagged list for the race harness).
@@ -98,6 +100,9 @@ var lfMutating = map[string]bool{
 	// bytes.Buffer
 	"Reset": true, "Write": true, "WriteString": true, "WriteTo": true, "WriteByte": true, "WriteRune": true, "Truncate": true, "ReadFrom": true,
 }
+
+// evaluator methods of *terminfo.Terminfo (parameter expansion, cursor addressing, colour selection, padding output)
+var lfTiEval = map[string]bool{"TParm": true, "TGoto": true, "TColor": true, "TPuts": true}
 
 func lfTypeString(e ast.Expr) string {
 	switch v := e.(type) {
@@ -384,6 +389,17 @@ func (w *lfWalker) fieldMethod(fr *lfFrame, f, m string, c *ast.CallExpr) {
 		if m == "Reset" || m == "Transform" {
 			w.emit(f+".state", true, fr.held, c.Pos())
 		}
+		return
+	case "ti":
+		// the terminal description is ONE object shared by the whole screen (and, through LookupTerminfo's copies, possibly
+		// with other users of the entry): whatever its evaluator methods keep between calls or use as scratch space is
+		// reached by every caller.  A call of an evaluator method is a write of the pseudo-field ti.eval, so the discipline
+		// demands that all of them are made under one mutex (the screen lock).  Reads of capability strings (t.ti.Bell …)
+		// are reads of the field ti as before.
+		if lfTiEval[m] {
+			w.emit("ti.eval", true, fr.held, c.Pos())
+		}
+		w.emit(f, false, fr.held, c.Pos())
 		return
 	case "wg":
 		// WaitGroup contract: an Add that starts from zero must happen before Wait — the race detector checks it; Add is a
@@ -864,7 +880,7 @@ func lfParse(repo string) (impls []*lfImpl) {
 	}
 	// pseudo-fields
 	for _, im := range []*lfImpl{ts, ss} {
-		for _, pf := range []string{"tty.out", "encoder.state", "decoder.state", "wg.state"} {
+		for _, pf := range []string{"tty.out", "encoder.state", "decoder.state", "wg.state", "ti.eval"} {
 			base := pf[:strings.Index(pf, ".")]
 			if _, ok := im.ftype[base]; ok {
 				im.fields = append(im.fields, pf)
